@@ -398,3 +398,94 @@ def map_in_map(which, omc: int, imc: int, c0: int, c1: int, c2: int, c3: int, c4
 
 SCN["map_in_map"] = (["0 <= omc <= 2 and 0 <= imc <= 2"], 600, 1800, ("quick", "thorough"))
 scn.__dict__["map_in_map"] = map_in_map
+
+
+def fanout_loop(which, kind: int, c0: int, c1: int, c2: int, c3: int, c4: int, c5: int, c6: int, c7: int, c8: int, c9: int, c10: int, c11: int):
+    """The same Parallel (kind 0) / Map (kind 1) state is entered twice in one execution: F -> Tick -> Choice -> F ...
+    Each entry is a join of its own: the second round must wait for ITS branches and deliver THEIR outputs."""
+    kind = cint(kind, 0, 1)
+    if kind == 0:
+        F = {"Type": "Parallel", "ResultPath": "$.out", "Next": "Tick", "Branches": [
+            {"StartAt": "A", "States": {"A": task("fa", End=True)}},
+            {"StartAt": "B", "States": {"B": task("fb", End=True)}}]}
+    else:
+        F = {"Type": "Map", "ItemsPath": "$.items", "ResultPath": "$.out", "Next": "Tick",
+             "Iterator": {"StartAt": "A", "States": {"A": task("fa", End=True)}}}
+    asl = {"StartAt": "F", "States": {
+        "F": F,
+        "Tick": {"Type": "Pass", "Parameters": {"n.$": "States.MathAdd($.n, 1)", "items.$": "$.items", "out.$": "$.out"}, "Next": "More"},
+        "More": {"Type": "Choice", "Choices": [{"Variable": "$.n", "NumericLessThan": 2, "Next": "F"}], "Default": "Done"},
+        "Done": {"Type": "Succeed"}}}
+    calls = {"fa": 0, "fb": 0}
+
+    def mk(name):
+        def w(req):
+            calls[name] += 1
+            return {"by": name, "call": calls[name]}
+        return w
+    data = {"n": 0, "items": [{"i": 0}, {"i": 1}]}
+
+    def chk(run, inst, mon):
+        got = s2.result_of()
+        if got[0] != "SUCCEEDED" or got[1].get("n") != 2:
+            return "outcome %r" % (got,)
+        out = got[1].get("out")
+        if kind == 0:
+            ok = isinstance(out, list) and len(out) == 2 and out[0] == {"by": "fa", "call": 2} and out[1] == {"by": "fb", "call": 2}
+        else:
+            ok = isinstance(out, list) and len(out) == 2 and sorted(o.get("call") for o in out if isinstance(o, dict)) == [3, 4] and all(o.get("by") == "fa" for o in out)
+        if not ok:
+            return "C05 second round of the fan-out state delivered %r (stale or incomplete join)" % (out,)
+        if calls["fa"] != (2 if kind == 0 else 4):
+            return "C05 task fa requested %d times" % calls["fa"]
+        h = [e["type"] for e in s2.history_of(inst)]
+        ex = "ParallelStateExited" if kind == 0 else "MapStateExited"
+        if h.count(ex) != 2:
+            return "C05 %s logged %d times for two rounds" % (ex, h.count(ex))
+        return ""
+    return _run(asl, data, [c0, c1, c2, c3, c4, c5, c6, c7, c8, c9, c10, c11], {"fa": mk("fa"), "fb": mk("fb")}, which, "STANDARD", None,
+                extra_check=chk, max_steps=300)
+
+
+SCN["fanout_loop"] = (["0 <= kind < 2"], 600, 1800, ("quick", "thorough"))
+scn.__dict__["fanout_loop"] = fanout_loop
+
+
+def map_retry_batches(which, failing: int, nfail: int, c0: int, c1: int, c2: int, c3: int, c4: int, c5: int, c6: int, c7: int):
+    """A Map over two items with MaxConcurrency 1 (two batches), a Retrier on the Map itself (1 s, x2, MaxAttempts 2)
+    and a Catcher: item `failing` fails on the first `nfail` runs of the Map.  The Map's retry budget counts runs of
+    the Map wherever the failing item's batch is; an exhausted budget goes to the Catcher."""
+    failing = cint(failing, 0, 1); nfail = cint(nfail, 0, 3)
+    M = {"Type": "Map", "ItemsPath": "$.items", "MaxConcurrency": 1, "Next": "Z", "ResultPath": "$.out",
+         "Retry": [{"ErrorEquals": ["Boom"], "IntervalSeconds": 1, "MaxAttempts": 2, "BackoffRate": 2.0}],
+         "Catch": [{"ErrorEquals": ["States.ALL"], "ResultPath": "$.err", "Next": "R"}],
+         "Iterator": {"StartAt": "I", "States": {"I": task("fi", End=True)}}}
+    asl = {"StartAt": "M", "States": {"M": M, "Z": {"Type": "Pass", "End": True}, "R": {"Type": "Pass", "Result": "rec", "ResultPath": "$.r", "End": True}}}
+    runs = [0]; times = []
+
+    def w(req):
+        if req.get("i") == 0:
+            runs[0] += 1
+            times.append(stubs.CLOCK.now - T0)
+        if req.get("i") == failing and runs[0] <= nfail:
+            return {"errorType": "Boom", "errorMessage": "run %d" % runs[0]}
+        return {"done": req["i"]}
+    items = [{"i": 0}, {"i": 1}]
+    sched = [0.0, 1.0, 3.0]
+    want_runs = min(nfail, 2) + 1
+
+    def chk(run, inst, mon):
+        if times != sched[:want_runs]:
+            return "C07 the Map was run at %s, expected %s (IntervalSeconds 1, BackoffRate 2, MaxAttempts 2)" % (times, sched[:want_runs])
+        got = s2.result_of()
+        if nfail <= 2:
+            if got != ("SUCCEEDED", {"items": items, "out": [{"done": 0}, {"done": 1}]}):
+                return "outcome %r" % (got,)
+        elif got[0] != "SUCCEEDED" or got[1].get("r") != "rec" or (got[1].get("err") or {}).get("Error") != "Boom":
+            return "C07 exhausted Map retries should reach the Catcher: %r" % (got,)
+        return ""
+    return _run(asl, {"items": items}, [c0, c1, c2, c3, c4, c5, c6, c7], {"fi": w}, which, "STANDARD", None, extra_check=chk, max_steps=300)
+
+
+SCN["map_retry_batches"] = (["0 <= failing < 2 and 0 <= nfail <= 3"], 600, 1800, ("quick", "thorough"))
+scn.__dict__["map_retry_batches"] = map_retry_batches
